@@ -7,7 +7,10 @@ E1: clpt_commons_bc*.pyx (fg, fuvw, cfuvw, ...) de-Cythonised, trigonometric val
  (P) exclude_dofs_matrix followed by re-insertion is the identity on a symbolic matrix, for every subset of prescribed
      amplitudes the API admits; calc_full_c inverts the removal for any load factor;
  (F) load vector: point forces (constant / incrementable) = virtual work against the package's own uvw at the force point;
-     axial load, torque (force controlled) and prescribed shortening / rotation terms against their definitions."""
+     axial load, torque (force controlled) and prescribed shortening / rotation terms against their definitions;
+     uniform pressure and a circumferentially varying (harmonic) axial edge load = virtual work integrated exactly over the
+     surface / the edge (vf/trigpoly.py);
+ (H) the book-keeping follows the CURRENT prescribed-amplitude flags and values when they were defined after a first rebuild."""
 import json, itertools
 import numpy as np
 import z3
@@ -169,6 +172,48 @@ def build(cfg, values=None):
                     red[a] = red[a] - inc * cc.thetaTrad * kuk[a, 1]
             for a in range(min(len(fext), len(keep))):
                 obs.append(('fext[%d]' % a, fext[a], red[a]))
+        elif variant == 'fext-pressure':
+            # uniform internal pressure: load vector = virtual work  int int P w_k r dx dtheta  over the shell surface with the exact
+            # running radius r = r2 + x sin(alpha), the package's own w field, integrated in closed form (vf/trigpoly.py)
+            from .. import cysym
+            from ..trigpoly import World, TP
+            from ..harness import REPO
+            import os
+            from ..shadow import ShimCSR
+            model = cfg['model']
+            cc.r2, cc.L = V('r2'), V('L')
+            cc.alphadeg = V('alphadeg')
+            cc.tLAdeg = V('tLAdeg')
+            cc.pdC, cc.pdT, cc.pdLA = True, True, True
+            cc.uTM, cc.thetaTdeg = 0., 0.
+            cc.Fc = 0.
+            cc.P, cc.P_inc = V('P'), V('P_inc')
+            inc = V('inc')
+            nsz = 3 + 3 * cc.m1 + 6 * cc.m2 * cc.n2
+            cc.k0 = ShimCSR((nsz, nsz))
+            cc._rebuild()
+            size = cc.get_size()
+            keep = [i for i in range(size) if i not in sorted(cc.excluded_dofs)]
+            kuk = np.zeros((len(keep), cc.num0), dtype=object)
+            for a in range(len(keep)):
+                for j in range(cc.num0):
+                    kuk[a, j] = 0
+            fext = cc.calc_fext(inc=inc, kuk=kuk, silent=True)
+            W = World(ctx.trig, cc.L, ctx.trig._same)
+            W.set_radius(cc.r2, cc.sina, cc.r2)       # only the rotation phit (not used here) divides by r
+            cenv = dict(ctx.kernels.extra_env)
+            cenv.update({'sin': W.sin, 'cos': W.cos})
+            C = cysym.Module(os.path.join(REPO, COMMONS[model]), env=cenv).ns
+            r_tp = TP.const(cc.r2, W) + W.x * Sym.lift(cc.sina)
+            Ptot = cc.P + inc * cc.P_inc
+            for a, k in enumerate(keep):
+                e = np.zeros(size, dtype=object)
+                e[k] = 1
+                out = C['fuvw'](e, cc.m1, cc.m2, cc.n2, cc.alpharad, cc.r2, cc.L, cc.tLArad, np.array([W.x], dtype=object), np.array([W.theta], dtype=object), 1)
+                w = np.ravel(out[2])[0]
+                w = w if isinstance(w, TP) else TP.const(w, W)
+                val = W.integrate(w * r_tp, 0, cc.L)
+                obs.append(('fext-pressure[%d]' % k, fext[a], Ptot * val.re))
         elif variant == 'fext-harmonics':
             # circumferentially varying axial line load on the top edge, Nxx(theta) = N[0] + sum_j N[2j-1] sin(j theta) + N[2j] cos(j theta):
             # its load vector against the virtual work  oint Nxx u_k(0, theta) r2 dtheta  of the package's own u field, the integral
@@ -242,6 +287,8 @@ def configs(tier, seed):
         for model in models:
             out.append({'variant': 'fext', 'pd': pd, 'model': model, 'mn': (1, 1, 1) if quick else (2, 1, 2), 'group': 'fext:%s:pdC=%d,pdT=%d' % ((model,) + pd[:2]), 'm': 1, 'n': 1,
                         'timeout_ms': 120000})
+    for model in (['clpt_donnell_bc1', 'clpt_donnell_bc3'] if quick else list(COMMONS)):
+        out.append({'variant': 'fext-pressure', 'model': model, 'mn': (3, 2, 1), 'group': 'fext-pressure:%s' % model, 'm': 3, 'n': 1, 'timeout_ms': 120000})
     for model in (['clpt_donnell_bc2', 'clpt_donnell_bc4', 'clpt_donnell_bc1'] if quick else list(COMMONS)):
         out.append({'variant': 'fext-harmonics', 'model': model, 'mn': (1, 2, 2), 'group': 'fext-harmonic-axial-load:%s' % model, 'm': 2, 'n': 2, 'timeout_ms': 120000})
     out[0]['canary'] = True
@@ -265,7 +312,7 @@ def main():
                   'prescribed subsets': ['LA', 'C+LA', 'T+LA', 'C+T+LA'], 'configurations': len(cf)}
     run.assume('trigonometric values enter as atoms per argument class with S^2 + C^2 = 1; multiples of pi/2 exact', 'r2, L non-zero; generic (non-zero) symbolic attributes in truthiness tests of _rebuild',
                'pdLA = True (the only value the API admits)')
-    run.outside = ['pressure and harmonic edge-load closed forms (need an exact trigonometric integrator, not built)', 'Sanders / FSDT / iso models', 'K_uu c_u = f_u solve (C07 decides sparse.solve)',
+    run.outside = ['load terms of the torsion / tilt amplitudes under a harmonic axial load (the package own definition of Nxxtop[2])', 'Sanders / FSDT / iso models', 'K_uu c_u = f_u solve (C07 decides sparse.solve)',
                    'orders above the bound']
     res = pmap(kprop.job, [(__name__, c) for c in cf])
     kprop.handle(run, res, build, 'values differ from the definition')
